@@ -424,7 +424,17 @@ def _e2e_case(seed):
         read = H.derive_read(rng, exons, kind, params.delta)
     if read is None:
         return None, []
-    ra, info = H.assign(gi, params, read)
+    # a quarter of the reads carry a polyA tail / polyT head that the aligner placed as a separate short block behind an N gap and that
+    # add_polya_info trimmed: the raw pysam record is longer than the read the corrector is given (own generator: earlier seeds keep their cases)
+    rng2 = random.Random(seed * 31 + 5)
+    trimmed = None
+    if rng2.random() < .25:
+        gap, ln = rng2.randint(300, 900), rng2.randint(20, 35)
+        if rng2.random() < .5:
+            trimmed = ([], [(read[-1][1] + gap, read[-1][1] + gap + ln - 1)])
+        elif read[0][0] - gap - ln >= 1:
+            trimmed = ([(read[0][0] - gap - ln, read[0][0] - gap - 1)], [])
+    ra, info = H.assign(gi, params, read, trimmed_blocks=trimmed)
     corrected = H.correct(gi, params, ra, info)
     problems = []
     if not corrected:
@@ -448,8 +458,12 @@ def _e2e_case(seed):
                 for site in (corrected[i][1] + 1, corrected[i + 1][0] - 1):
                     if site not in own and site not in annotated:
                         problems.append("splice site %d is neither the read's nor annotated" % site)
-    desc = {"strategy": strategy, "kind": kind, "isoform": tid, "read": read,
-            "events": [e.event_type.name for m in ra.isoform_matches[:1] for e in m.match_subclassifications]}
+    events = [e.event_type.name for m in ra.isoform_matches[:1] for e in m.match_subclassifications]
+    if corrected and not problems and not any(("terminal" in e and "exon" in e) or "fake" in e or "micro" in e for e in events):
+        # a read keeps its start and end unless a terminal-exon correction applies
+        if (corrected[0][0], corrected[-1][1]) != (read[0][0], read[-1][1]):
+            problems.append("start / end moved from %s to %s without a terminal-exon event (%s)" % ((read[0][0], read[-1][1]), (corrected[0][0], corrected[-1][1]), events))
+    desc = {"strategy": strategy, "kind": kind, "isoform": tid, "read": read, "trimmed_blocks": trimmed, "events": events}
     return desc, problems
 
 
